@@ -18,6 +18,7 @@ SPEC = dict(
         "SymVerif.C28.nor_de_morgan",
         "SymVerif.C28.xnor_not_xor",
         "SymVerif.C28.not_not_truth",
+        "SymVerif.C28.xor_perm_truth",
         "SymVerif.C28.piecewise_sound",
         "SymVerif.C28.recipe_sound",
         "SymVerif.C28.subst_sound_at",
